@@ -19,7 +19,7 @@ const (
 	sGrow     // memory.grow 1 inline
 	sIf       // if (c) A else B
 	sLoop2    // loop executing A twice
-	sTouch0   // memory.fill(0, 0, 0): in bounds on every memory (even an empty one), makes the function load the memory base
+	sTouch0   // memory.copy(0, 0, 0): in bounds on every memory (even an empty one), makes the function load the memory base in straight-line code (memory.fill would open new blocks)
 )
 
 type step struct {
@@ -114,7 +114,7 @@ var placements = []*placement{
 	{Name: "loop:access+callgrow", Grows: true, build: func(c uint64) []step {
 		return seq(step{K: sLoop2, A: []step{acc, {K: sCallGrow}}})
 	}},
-	// a zero-length fill is the only "touch" that succeeds on an empty memory (whose base pointer is nil until it grows)
+	// a zero-length bulk copy is the only "touch" that succeeds on an empty memory (whose base pointer is nil until it grows)
 	{Name: "touch0:grow", Grows: true, Touch0: true, build: func(c uint64) []step { return seq(step{K: sTouch0}, step{K: sGrow}, acc) }},
 	{Name: "touch0:callgrow", Grows: true, Touch0: true, build: func(c uint64) []step { return seq(step{K: sTouch0}, step{K: sCallGrow}, acc) }},
 }
@@ -265,7 +265,7 @@ func emitSteps(a *wb.Asm, s *fnSpec, steps []step, bl uint32) {
 		case sGrow:
 			a.I32Const(1).MemoryGrow().Drop()
 		case sTouch0:
-			a.I32Const(0).I32Const(0).I32Const(0).MemoryFill()
+			a.I32Const(0).I32Const(0).I32Const(0).MemoryCopy()
 		case sIf:
 			a.LocalGet(lC).If(wb.Void)
 			emitSteps(a, s, st.A, bl)
